@@ -41,6 +41,9 @@ pub const VAR_ATTRS_BAD: &[&str] = &[
 /// (attribute, independent reason) - definitions containing one of these on a unit variant must be rejected
 pub const MUST_REJECT_ATTRS: &[(&str, &str)] = &[
     ("#[regex(\"a*\")]", "matches the empty string"),
+    ("#[regex(\"[a-z]*\", priority = 3)]", "matches the empty string (explicit priority)"),
+    ("#[regex(\"(ab)?\", priority = 1)]", "matches the empty string (explicit priority)"),
+    ("#[regex(\"x{0,2}\", priority = 0)]", "matches the empty string (explicit priority)"),
     ("#[regex(\"(a|)\")]", "matches the empty string"),
     ("#[regex(\"\")]", "matches the empty string"),
     ("#[token(\"\")]", "matches the empty string"),
